@@ -20,6 +20,11 @@ R30d  the builder ``_build_up_fixed_source_string`` applies a patch only on exac
       raw source string by their own slice; it receives the slicer's output and the same
       patch list the slicer saw.
 
+Also read as the same facts (QUIET sweep): a list comprehension inside ``any``/``all``; ``lst.sort(key=..)``
+on every path with no later change for ``sorted(lst, key=..)``; the patch's slice / start / replacement
+text and the raw source string through a local; the builder collecting parts in a fresh list that only
+grows by ``append`` and is joined once.
+
 Not decided: that ``_patches_conflict``'s interval arithmetic is right for every pair.
 """
 
@@ -28,9 +33,10 @@ from __future__ import annotations
 import ast
 
 from ..cfg import cfg_of, origins
+from ..idioms import expanded
 from ..flowutil import (
     attr_chain, branch_of, callee, calls_to, compare_atoms, describe_origin, for_origin, is_fresh_list,
-    is_fresh_set, must_pass, mutations_of, param_origin, sole_expr_origin, sorted_info, within,
+    is_fresh_set, must_pass, mutations_of, param_origin, sole_expr_origin, sorted_info, within, SortedInfo,
 )
 from ..index import AnalysisError, arg_of, call_name, calls_in, kwarg, last_attr, norm, short, walk_local
 
@@ -53,6 +59,38 @@ def _returned_local(chk, f, rule, what):
     if len(names) == 1 and None not in names:
         return names.pop(), rets
     return None, rets
+
+
+def _sorted_view(f, cfg, e, at):
+    """SortedInfo of the order the list ``e`` is in at ``at``: ``sorted(..)`` (in place or through a
+    local), or a local list on which ``<list>.sort(key=..)`` ran on every path to ``at`` with no
+    in-place change and no re-binding of the list between that sort and ``at``."""
+    v = sole_expr_origin(cfg, e, at) if e is not None else None
+    si = sorted_info(v)
+    if si is not None or not isinstance(e, ast.Name):
+        return si
+    rd = cfg.reaching()
+    muts = mutations_of(f, e.id)
+    for k, c in muts:
+        if k != "sort" or c.args:
+            continue
+        s_ = cfg.stmt_of(c)
+        if not (isinstance(s_, ast.Expr) and s_.value is c and cfg.dominates(s_, at)):
+            continue
+        if rd.defs_at(s_, e.id) != rd.defs_at(at, e.id):
+            continue
+        later = [m for _, m in muts if m is not c and cfg.reaches(s_, cfg.stmt_of(m)) and cfg.reaches(cfg.stmt_of(m), at)]
+        if later:
+            continue
+        return SortedInfo(c)
+    return None
+
+
+def _join_of(e):
+    """``N`` when ``e`` is ``"".join(N)``."""
+    if isinstance(e, ast.Call) and isinstance(e.func, ast.Attribute) and e.func.attr == "join" and isinstance(e.func.value, ast.Constant) and e.func.value.value == "" and len(e.args) == 1 and not e.keywords and isinstance(e.args[0], ast.Name):
+        return e.args[0]
+    return None
 
 
 def _start_keyed(si) -> bool:
@@ -136,7 +174,7 @@ def _r30a(chk, repo) -> None:
         # -- conflict test ---------------------------------------------------
         conf_ok = False
         for e, pol in conds:
-            if not (isinstance(e, ast.Call) and e.args and isinstance(e.args[0], ast.GeneratorExp)):
+            if not (isinstance(e, ast.Call) and e.args and isinstance(e.args[0], (ast.GeneratorExp, ast.ListComp))):
                 continue
             fn = call_name(e)
             gen = e.args[0]
@@ -268,9 +306,8 @@ def _r30b(chk, repo) -> None:
     chk.floor("R30b.generate_returns", 1)
     gcfg = cfg_of(gen)
     for r in rets:
-        v = sole_expr_origin(gcfg, r.value, r) if r.value is not None else None
         chk.require(
-            _start_keyed(sorted_info(v)), "R30b", r,
+            _start_keyed(_sorted_view(gen, gcfg, r.value, r)), "R30b", r,
             "generate_source_patches returns a list that is not sorted (ascending) on the patches' source start",
             detail="generate_source_patches returns sorted(key=source start)",
         )
@@ -282,9 +319,8 @@ def _r30b(chk, repo) -> None:
                 continue
             st = cfg.stmt_of(n)
             fo = for_origin(cfg, n.args[0] if n.args else None, st)
-            it = sole_expr_origin(cfg, fo[0].iter, fo[0]) if fo else None
             chk.require(
-                fo is not None and not fo[1] and _start_keyed(sorted_info(it)), "R30b", n,
+                fo is not None and not fo[1] and _start_keyed(_sorted_view(f, cfg, fo[0].iter, fo[0])), "R30b", n,
                 "the merged list is not filled in the order of a sort on source start",
                 detail="merge_source_patches appends in sorted(key=source start) order",
             )
@@ -412,7 +448,7 @@ def _r30c(chk, repo) -> None:
     for k, n in mutations_of(f, out):
         if k != "append" or not n.args:
             continue
-        ch = n.args[0]
+        ch = expanded(cfg, n.args[0], cfg.stmt_of(n))  # `ps = patch.source_slice; out.append(ps)` reads as the attribute
         if isinstance(ch, ast.Attribute) and ch.attr == "source_slice" and isinstance(ch.value, ast.Name):
             fo = for_origin(cfg, ch.value, cfg.stmt_of(n))
             if fo and fo[0] in loops and not fo[1]:
@@ -423,16 +459,21 @@ def _r30c(chk, repo) -> None:
         st = cfg.stmt_of(n)
         loop = fo[0]
         guard_cursor = None
-        for e, pol in compare_atoms(cfg, st):
-            l, r, op = e.left, e.comparators[0], e.ops[0]
-            # normalise to  start (<|>=) cursor
-            if isinstance(op, (ast.Gt, ast.LtE)):
-                l, r = r, l
-                op = ast.Lt() if isinstance(op, ast.Gt) else ast.GtE()
-            ok_pol = (isinstance(op, ast.Lt) and not pol) or (isinstance(op, ast.GtE) and pol)
-            ch = attr_chain(l)
-            if ok_pol and ch and ch[1:] == ("source_slice", "start") and for_origin(cfg, l.value.value, cfg.stmt_of(e)) == fo and isinstance(r, ast.Name):
-                guard_cursor = r.id
+        for e0, pol in compare_atoms(cfg, st):
+            e_at = cfg.stmt_of(e0)
+            # one side is the patch's start (in place or read into a local), the other the cursor local
+            for a, b, flip in ((e0.left, e0.comparators[0], False), (e0.comparators[0], e0.left, True)):
+                if not isinstance(b, ast.Name):
+                    continue
+                ax = expanded(cfg, a, e_at)
+                ch = attr_chain(ax)
+                if not (ch and ch[1:] == ("source_slice", "start") and for_origin(cfg, ax.value.value, e_at) == fo):
+                    continue
+                op = e0.ops[0]
+                if flip:  # normalise to  start (<|>=) cursor
+                    op = {ast.Gt: ast.Lt, ast.Lt: ast.Gt, ast.GtE: ast.LtE, ast.LtE: ast.GtE}.get(type(op), type(op))()
+                if (isinstance(op, ast.Lt) and not pol) or (isinstance(op, ast.GtE) and pol):
+                    guard_cursor = b.id
         chk.require(
             guard_cursor is not None, "R30c", n,
             "the patch's slice is emitted without a dominating test that the patch does not start before the cursor (an overlapping patch would be applied on top of text already covered)",
@@ -441,8 +482,9 @@ def _r30c(chk, repo) -> None:
         adv = []
         for a in walk_local(loop):
             if isinstance(a, ast.Assign) and len(a.targets) == 1 and isinstance(a.targets[0], ast.Name):
-                ch = attr_chain(a.value)
-                if ch and ch[1:] == ("source_slice", "stop") and for_origin(cfg, a.value.value.value, a) == fo:
+                av = expanded(cfg, a.value, a)
+                ch = attr_chain(av)
+                if ch and ch[1:] == ("source_slice", "stop") and for_origin(cfg, av.value.value, a) == fo:
                     if guard_cursor is None or a.targets[0].id == guard_cursor:
                         adv.append(a)
         chk.require(
@@ -472,6 +514,14 @@ def _r30d(chk, repo) -> None:
     if len(params) < 3:
         raise AnalysisError("builder signature changed (expected slices, patches, raw source)")
     acc, rets = _returned_local(chk, f, "R30d", "fixed string")
+    as_list = False
+    if acc is None and rets and all(_join_of(r.value) is not None for r in rets) and len({_join_of(r.value).id for r in rets}) == 1:
+        # the text is collected in a list of parts and joined once: ``"".join(parts)``; the list must be a
+        # fresh local list that only ever grows by ``append`` (each append is one contribution)
+        cand = _join_of(rets[0].value).id
+        os_ = origins(cfg, _join_of(rets[0].value), rets[0])
+        if os_ and all(o.kind == "expr" and not o.path and is_fresh_list(o.expr) for o in os_):
+            acc, as_list = cand, True
     if acc is None:
         chk.fail("R30d", f, "builder does not return one local accumulator", detail="accumulator returned")
         return
@@ -482,9 +532,18 @@ def _r30d(chk, repo) -> None:
     chk.floor("R30d.slice_loops", 1)
     chk.floor("R30d.patch_loops", 1)
     applies, copies = [], []
+    n_bad = 0
+    list_muts = {id(cfg.stmt_of(c)): (k, c) for k, c in mutations_of(f, acc)} if as_list else {}
     for n in walk_local(f):
         val = None
-        if isinstance(n, ast.AugAssign) and isinstance(n.target, ast.Name) and n.target.id == acc:
+        if as_list:
+            if isinstance(n, ast.stmt) and id(n) in list_muts:
+                k, c = list_muts[id(n)]
+                val = c.args[0] if k == "append" and len(c.args) == 1 and isinstance(n, ast.Expr) and n.value is c else ast.Constant(value=None)
+            elif isinstance(n, (ast.Assign, ast.AnnAssign, ast.AugAssign)) and any(isinstance(t, ast.Name) and t.id == acc for t in (n.targets if isinstance(n, ast.Assign) else [n.target])):
+                if isinstance(n, ast.AugAssign) or not (n.value is not None and is_fresh_list(n.value)):
+                    val = ast.Constant(value=None)
+        elif isinstance(n, ast.AugAssign) and isinstance(n.target, ast.Name) and n.target.id == acc:
             val = n.value if isinstance(n.op, ast.Add) else ast.Constant(value=None)
         elif isinstance(n, ast.Assign) and any(isinstance(t, ast.Name) and t.id == acc for t in n.targets):
             v = n.value
@@ -496,6 +555,8 @@ def _r30d(chk, repo) -> None:
                 val = ast.Constant(value=None)
         if val is None:
             continue
+        if isinstance(val, ast.Name):
+            val = expanded(cfg, val, n)  # `text = patch.fixed_raw; buff += text` reads as the attribute
         kind = None
         if isinstance(val, ast.Attribute) and val.attr == "fixed_raw":
             fo = for_origin(cfg, val.value, n)
@@ -508,12 +569,15 @@ def _r30d(chk, repo) -> None:
                 kind = "copy"
                 copies.append((n, fo))
         if kind is None:
+            n_bad += 1
             chk.fail(
                 "R30d", n,
                 "the fixed string receives text that is neither a matched patch's replacement nor the raw source at the current slice",
                 detail=f"contribution: {short(n, 90)}",
             )
     chk.count("R30d.apply_sites", len(applies))
+    if not applies and n_bad:
+        return  # the replacement no longer enters the text in the accepted way: reported above (a violation, not a lost anchor)
     chk.floor("R30d.apply_sites", 1)
     for n, fo in applies:
         pl = fo[0]
@@ -562,7 +626,8 @@ def _r30d(chk, repo) -> None:
             bo = {id(o.expr) for o in origins(ccfg, a1, st)} if a1 is not None else set()
             chk.require(bool(so) and so == bo, "R30d", call, "builder and slicer are given different patch lists (slices and patches no longer correspond)", detail="builder patches == slicer patches")
             r2, r3 = arg_of(call, 2, "raw_source_string"), arg_of(sc, 2, "raw_source_string")
-            chk.require(r2 is not None and r3 is not None and norm(r2) == norm(r3), "R30d", call, "builder and slicer are given different raw source strings", detail="builder raw == slicer raw")
+            same_raw = r2 is not None and r3 is not None and norm(expanded(ccfg, r2, st)) == norm(expanded(ccfg, r3, ccfg.stmt_of(sc)))  # a local holding the expression reads as the expression
+            chk.require(same_raw, "R30d", call, "builder and slicer are given different raw source strings", detail="builder raw == slicer raw")
 
 
 from ..selftest import Variant  # noqa: E402
@@ -580,6 +645,147 @@ VARIANTS = [
         "        dedupe_tuple = patch.dedupe_tuple()\n        if dedupe_tuple in dedupe_buffer:\n            continue\n",
         "        dedupe_tuple = patch.dedupe_tuple()\n        seen_before = dedupe_tuple in dedupe_buffer\n        if seen_before:\n            continue\n",
         "QUIET", None, "duplicate test through a local",
+    ),
+    # behaviour-preserving refactors: must stay quiet (sweep)
+    Variant(
+        'quiet-merge-tests-as-nested-positive-ifs', PATCH,
+        '        dedupe_tuple = patch.dedupe_tuple()\n        if dedupe_tuple in dedupe_buffer:\n            continue\n\n        if any(_patches_conflict(existing, patch) for existing in merged_patches):\n            linter_logger.info(\n                "Skipping conflicting cross-variant patch: %s",\n                patch,\n            )\n            continue\n\n        merged_patches.append(patch)\n        dedupe_buffer.add(dedupe_tuple)\n',
+        '        dedupe_tuple = patch.dedupe_tuple()\n        if dedupe_tuple not in dedupe_buffer:\n            if not any(_patches_conflict(existing, patch) for existing in merged_patches):\n                merged_patches.append(patch)\n                dedupe_buffer.add(dedupe_tuple)\n            else:\n                linter_logger.info(\n                    "Skipping conflicting cross-variant patch: %s",\n                    patch,\n                )\n',
+        "QUIET", None, 'early continues turned into nested positive tests',
+    ),
+    Variant(
+        'quiet-merge-conflict-test-all-not', PATCH,
+        '        if any(_patches_conflict(existing, patch) for existing in merged_patches):\n',
+        '        if not all(not _patches_conflict(patch, existing) for existing in merged_patches):\n',
+        "QUIET", None, 'any(..) false spelled `all(not ..)`, arguments in the other order',
+    ),
+    Variant(
+        'quiet-merge-conflict-test-list-comprehension', PATCH,
+        '        if any(_patches_conflict(existing, patch) for existing in merged_patches):\n',
+        '        if any([_patches_conflict(existing, patch) for existing in merged_patches]):\n',
+        "QUIET", None, 'generator expression written as a list comprehension',
+    ),
+    Variant(
+        'quiet-merge-record-before-append', PATCH,
+        '        merged_patches.append(patch)\n        dedupe_buffer.add(dedupe_tuple)\n',
+        '        dedupe_buffer.add(patch.dedupe_tuple())\n        merged_patches.append(patch)\n',
+        "QUIET", None, 'two independent statements reordered; key recomputed',
+    ),
+    Variant(
+        'quiet-merge-sort-into-local', PATCH,
+        '    for patch in sorted(\n        (patch for patches in patch_buffers for patch in patches),\n        key=lambda patch: (patch.source_slice.start, patch.source_slice.stop),\n    ):\n',
+        '    all_patches = [patch for patches in patch_buffers for patch in patches]\n    ordered = sorted(\n        all_patches,\n        key=lambda p: (p.source_slice.start, p.source_slice.stop),\n    )\n    for patch in ordered:\n',
+        "QUIET", None, 'flattening and sorting hoisted into locals; lambda parameter renamed',
+    ),
+    Variant(
+        'quiet-merge-sort-in-place', PATCH,
+        '    for patch in sorted(\n        (patch for patches in patch_buffers for patch in patches),\n        key=lambda patch: (patch.source_slice.start, patch.source_slice.stop),\n    ):\n',
+        '    all_patches = [patch for patches in patch_buffers for patch in patches]\n    all_patches.sort(key=lambda p: (p.source_slice.start, p.source_slice.stop))\n    for patch in all_patches:\n',
+        "QUIET", None, 'sorted(..) spelled as list.sort(..) on a fresh list',
+    ),
+    Variant(
+        'quiet-generate-sort-in-place', PATCH,
+        '    return sorted(filtered_source_patches, key=lambda x: x.source_slice.start)\n',
+        '    filtered_source_patches.sort(key=lambda x: x.source_slice.start)\n    return filtered_source_patches\n',
+        "QUIET", None, 'sorted(..) spelled as list.sort(..) before the return',
+    ),
+    Variant(
+        'quiet-generate-sorted-through-local', PATCH,
+        '    return sorted(filtered_source_patches, key=lambda x: x.source_slice.start)\n',
+        '    in_source_order = sorted(filtered_source_patches, key=lambda fp: fp.source_slice.start)\n    return in_source_order\n',
+        "QUIET", None, 'sorted result through a local; lambda parameter renamed',
+    ),
+    Variant(
+        'quiet-fix-string-patches-conditional-expression', LFILE,
+        "        filtered_source_patches = self.source_patches\n        if filtered_source_patches is None:\n            # NOTE: In normal usage, this clause is not hit, but has been kept\n            # for python API users who may rely on it. Consider deprecating\n            # this clause in the future if it isn't being used.\n            filtered_source_patches = generate_source_patches(\n                self.tree, self.templated_file\n            )\n",
+        '        filtered_source_patches = (\n            self.source_patches\n            if self.source_patches is not None\n            else generate_source_patches(self.tree, self.templated_file)\n        )\n',
+        "QUIET", None, 'if statement as a conditional expression',
+    ),
+    Variant(
+        'quiet-slicer-call-keyword-arguments', LFILE,
+        '        slice_buff = self._slice_source_file_using_patches(\n            filtered_source_patches, source_only_slices, self.templated_file.source_str\n        )\n',
+        '        slice_buff = self._slice_source_file_using_patches(\n            source_patches=filtered_source_patches,\n            source_only_slices=source_only_slices,\n            raw_source_string=self.templated_file.source_str,\n        )\n',
+        "QUIET", None, 'slicer called with keyword arguments',
+    ),
+    Variant(
+        'quiet-builder-gets-raw-source-through-local', LFILE,
+        '        fixed_source_string = self._build_up_fixed_source_string(\n            slice_buff, filtered_source_patches, self.templated_file.source_str\n        )\n',
+        '        fixed_source_string = self._build_up_fixed_source_string(\n            slice_buff, filtered_source_patches, original_source\n        )\n',
+        "QUIET", None, 'the same raw source string passed through the local that already holds it',
+    ),
+    Variant(
+        'quiet-slicer-skip-as-if-else', LFILE,
+        '            # Is this patch covering an area we\'ve already covered?\n            if patch.source_slice.start < source_idx:  # pragma: no cover\n                # NOTE: This shouldn\'t happen. With more detailed templating\n                # this shouldn\'t happen - but in the off-chance that this does\n                # happen - then this code path remains.\n                linter_logger.info(\n                    "Skipping overlapping patch at Index %s, Patch: %s",\n                    source_idx,\n                    patch,\n                )\n                # Ignore the patch for now...\n                continue\n\n            # Add this patch.\n            slice_buff.append(patch.source_slice)\n            source_idx = patch.source_slice.stop\n',
+        '            # Is this patch covering an area we\'ve already covered?\n            if patch.source_slice.start < source_idx:  # pragma: no cover\n                linter_logger.info(\n                    "Skipping overlapping patch at Index %s, Patch: %s",\n                    source_idx,\n                    patch,\n                )\n            else:\n                # Add this patch.\n                slice_buff.append(patch.source_slice)\n                source_idx = patch.source_slice.stop\n',
+        "QUIET", None, 'continue turned into if/else (the cursor still only moves for an emitted patch)',
+    ),
+    Variant(
+        'quiet-slicer-emit-under-positive-test', LFILE,
+        '            # Is this patch covering an area we\'ve already covered?\n            if patch.source_slice.start < source_idx:  # pragma: no cover\n                # NOTE: This shouldn\'t happen. With more detailed templating\n                # this shouldn\'t happen - but in the off-chance that this does\n                # happen - then this code path remains.\n                linter_logger.info(\n                    "Skipping overlapping patch at Index %s, Patch: %s",\n                    source_idx,\n                    patch,\n                )\n                # Ignore the patch for now...\n                continue\n\n            # Add this patch.\n            slice_buff.append(patch.source_slice)\n            source_idx = patch.source_slice.stop\n',
+        '            if patch.source_slice.start >= source_idx:\n                # Add this patch.\n                slice_buff.append(patch.source_slice)\n                source_idx = patch.source_slice.stop\n                continue\n            linter_logger.info(\n                "Skipping overlapping patch at Index %s, Patch: %s",\n                source_idx,\n                patch,\n            )\n',
+        "QUIET", None, 'test inverted: emit under `start >= cursor`',
+    ),
+    Variant(
+        'quiet-slicer-patch-start-in-local', LFILE,
+        '            # Is this patch covering an area we\'ve already covered?\n            if patch.source_slice.start < source_idx:  # pragma: no cover\n                # NOTE: This shouldn\'t happen. With more detailed templating\n                # this shouldn\'t happen - but in the off-chance that this does\n                # happen - then this code path remains.\n                linter_logger.info(\n                    "Skipping overlapping patch at Index %s, Patch: %s",\n                    source_idx,\n                    patch,\n                )\n                # Ignore the patch for now...\n                continue\n\n            # Add this patch.\n            slice_buff.append(patch.source_slice)\n            source_idx = patch.source_slice.stop\n',
+        '            # Is this patch covering an area we\'ve already covered?\n            patch_start = patch.source_slice.start\n            if patch_start < source_idx:  # pragma: no cover\n                linter_logger.info(\n                    "Skipping overlapping patch at Index %s, Patch: %s",\n                    source_idx,\n                    patch,\n                )\n                # Ignore the patch for now...\n                continue\n\n            # Add this patch.\n            slice_buff.append(patch.source_slice)\n            source_idx = patch.source_slice.stop\n',
+        "QUIET", None, 'patch start read into a local',
+    ),
+    Variant(
+        'quiet-slicer-patch-slice-in-local', LFILE,
+        '            # Is this patch covering an area we\'ve already covered?\n            if patch.source_slice.start < source_idx:  # pragma: no cover\n                # NOTE: This shouldn\'t happen. With more detailed templating\n                # this shouldn\'t happen - but in the off-chance that this does\n                # happen - then this code path remains.\n                linter_logger.info(\n                    "Skipping overlapping patch at Index %s, Patch: %s",\n                    source_idx,\n                    patch,\n                )\n                # Ignore the patch for now...\n                continue\n\n            # Add this patch.\n            slice_buff.append(patch.source_slice)\n            source_idx = patch.source_slice.stop\n',
+        '            # Is this patch covering an area we\'ve already covered?\n            if patch.source_slice.start < source_idx:  # pragma: no cover\n                # NOTE: This shouldn\'t happen. With more detailed templating\n                # this shouldn\'t happen - but in the off-chance that this does\n                # happen - then this code path remains.\n                linter_logger.info(\n                    "Skipping overlapping patch at Index %s, Patch: %s",\n                    source_idx,\n                    patch,\n                )\n                # Ignore the patch for now...\n                continue\n\n            # Add this patch.\n            patch_slice = patch.source_slice\n            slice_buff.append(patch_slice)\n            source_idx = patch_slice.stop\n',
+        "QUIET", None, 'patch slice read into a local',
+    ),
+    Variant(
+        'quiet-builder-joins-a-list', LFILE,
+        '        str_buff = ""\n        for source_slice in source_file_slices:\n            # Is it one in the patch buffer:\n            for patch in source_patches:\n                if patch.source_slice == source_slice:\n                    # Use the patched version\n                    linter_logger.debug(\n                        "%-30s    %s    %r > %r",\n                        f"Appending {patch.patch_category} Patch:",\n                        patch.source_slice,\n                        patch.source_str,\n                        patch.fixed_raw,\n                    )\n                    str_buff += patch.fixed_raw\n                    break\n            else:\n                # Use the raw string\n                linter_logger.debug(\n                    "Appending Raw:                    %s     %r",\n                    source_slice,\n                    raw_source_string[source_slice],\n                )\n                str_buff += raw_source_string[source_slice]\n        return str_buff\n',
+        '        parts: list[str] = []\n        for source_slice in source_file_slices:\n            # Is it one in the patch buffer:\n            for patch in source_patches:\n                if patch.source_slice == source_slice:\n                    # Use the patched version\n                    linter_logger.debug(\n                        "%-30s    %s    %r > %r",\n                        f"Appending {patch.patch_category} Patch:",\n                        patch.source_slice,\n                        patch.source_str,\n                        patch.fixed_raw,\n                    )\n                    parts.append(patch.fixed_raw)\n                    break\n            else:\n                # Use the raw string\n                linter_logger.debug(\n                    "Appending Raw:                    %s     %r",\n                    source_slice,\n                    raw_source_string[source_slice],\n                )\n                parts.append(raw_source_string[source_slice])\n        return "".join(parts)\n',
+        "QUIET", None, 'string accumulation replaced by a list of parts and one join',
+    ),
+    Variant(
+        'quiet-builder-replacement-through-local', LFILE,
+        '        str_buff = ""\n        for source_slice in source_file_slices:\n            # Is it one in the patch buffer:\n            for patch in source_patches:\n                if patch.source_slice == source_slice:\n                    # Use the patched version\n                    linter_logger.debug(\n                        "%-30s    %s    %r > %r",\n                        f"Appending {patch.patch_category} Patch:",\n                        patch.source_slice,\n                        patch.source_str,\n                        patch.fixed_raw,\n                    )\n                    str_buff += patch.fixed_raw\n                    break\n            else:\n                # Use the raw string\n                linter_logger.debug(\n                    "Appending Raw:                    %s     %r",\n                    source_slice,\n                    raw_source_string[source_slice],\n                )\n                str_buff += raw_source_string[source_slice]\n        return str_buff\n',
+        '        str_buff = ""\n        for source_slice in source_file_slices:\n            # Is it one in the patch buffer:\n            for patch in source_patches:\n                if source_slice == patch.source_slice:\n                    # Use the patched version\n                    linter_logger.debug(\n                        "%-30s    %s    %r > %r",\n                        f"Appending {patch.patch_category} Patch:",\n                        patch.source_slice,\n                        patch.source_str,\n                        patch.fixed_raw,\n                    )\n                    replacement = patch.fixed_raw\n                    str_buff = str_buff + replacement\n                    break\n            else:\n                # Use the raw string\n                linter_logger.debug(\n                    "Appending Raw:                    %s     %r",\n                    source_slice,\n                    raw_source_string[source_slice],\n                )\n                str_buff += raw_source_string[source_slice]\n        return str_buff\n',
+        "QUIET", None, 'replacement text through a local; x = x + y; equality sides swapped',
+    ),
+    Variant("quiet-merged-list-renamed", PATCH, "merged_patches", "kept", "QUIET", None, "merged list local renamed everywhere", 4),
+    # breaking twins of the spellings accepted above
+    Variant(
+        'generate-sorts-in-place-on-stop', PATCH,
+        '    return sorted(filtered_source_patches, key=lambda x: x.source_slice.start)\n',
+        '    filtered_source_patches.sort(key=lambda x: x.source_slice.stop)\n    return filtered_source_patches\n',
+        'R30b', None, 'breaking twin of the in-place sort spelling: wrong key',
+    ),
+    Variant(
+        'generate-sorts-in-place-then-reverses', PATCH,
+        '    return sorted(filtered_source_patches, key=lambda x: x.source_slice.start)\n',
+        '    filtered_source_patches.sort(key=lambda x: x.source_slice.start)\n    filtered_source_patches.reverse()\n    return filtered_source_patches\n',
+        'R30b', None, 'breaking twin of the in-place sort spelling: the list is changed after the sort',
+    ),
+    Variant(
+        'merge-conflict-list-comprehension-only-last-kept', PATCH,
+        'any(_patches_conflict(existing, patch) for existing in merged_patches)',
+        'any([_patches_conflict(existing, patch) for existing in merged_patches[-1:]])',
+        'R30a', None, 'breaking twin of the list-comprehension spelling',
+    ),
+    Variant(
+        'slicer-start-local-holds-the-stop', LFILE,
+        '            if patch.source_slice.start < source_idx:  # pragma: no cover\n',
+        '            patch_start = patch.source_slice.stop\n            if patch_start < source_idx:  # pragma: no cover\n',
+        'R30c', None, 'breaking twin of the start-in-a-local spelling',
+    ),
+    Variant(
+        'builder-gets-another-string-through-local', LFILE,
+        '        fixed_source_string = self._build_up_fixed_source_string(\n            slice_buff, filtered_source_patches, self.templated_file.source_str\n        )\n',
+        '        rendered = self.templated_file.templated_str\n        fixed_source_string = self._build_up_fixed_source_string(\n            slice_buff, filtered_source_patches, rendered\n        )\n',
+        'R30d', None, 'breaking twin of the raw-source-in-a-local spelling',
+    ),
+    Variant(
+        'builder-parts-list-prepends-replacements', LFILE,
+        '        str_buff = ""\n        for source_slice in source_file_slices:\n            # Is it one in the patch buffer:\n            for patch in source_patches:\n                if patch.source_slice == source_slice:\n                    # Use the patched version\n                    linter_logger.debug(\n                        "%-30s    %s    %r > %r",\n                        f"Appending {patch.patch_category} Patch:",\n                        patch.source_slice,\n                        patch.source_str,\n                        patch.fixed_raw,\n                    )\n                    str_buff += patch.fixed_raw\n                    break\n            else:\n                # Use the raw string\n                linter_logger.debug(\n                    "Appending Raw:                    %s     %r",\n                    source_slice,\n                    raw_source_string[source_slice],\n                )\n                str_buff += raw_source_string[source_slice]\n        return str_buff\n',
+        '        parts: list[str] = []\n        for source_slice in source_file_slices:\n            # Is it one in the patch buffer:\n            for patch in source_patches:\n                if patch.source_slice == source_slice:\n                    # Use the patched version\n                    linter_logger.debug(\n                        "%-30s    %s    %r > %r",\n                        f"Appending {patch.patch_category} Patch:",\n                        patch.source_slice,\n                        patch.source_str,\n                        patch.fixed_raw,\n                    )\n                    parts.insert(0, patch.fixed_raw)\n                    break\n            else:\n                # Use the raw string\n                linter_logger.debug(\n                    "Appending Raw:                    %s     %r",\n                    source_slice,\n                    raw_source_string[source_slice],\n                )\n                parts.append(raw_source_string[source_slice])\n        return "".join(parts)\n',
+        'R30d', None, 'breaking twin of the joined-list spelling: replacements are put in front',
     ),
     Variant(
         "slicer-cursor-moves-for-skipped-patch", LFILE,
